@@ -1,9 +1,11 @@
 //! `verif <ID> quick|thorough` and `verif replay <file>`.
 
 mod enga;
+mod engc;
 mod genc;
 mod pipe;
 mod props;
+mod props2;
 mod server;
 mod util;
 
@@ -20,12 +22,24 @@ fn main() {
         let text = std::fs::read_to_string(path).unwrap_or_else(|e| infra(&format!("{}: {}", path, e)));
         let v: serde_json::Value = serde_json::from_str(&text).unwrap_or_else(|e| infra(&format!("{}: {}", path, e)));
         let id = v["property"].as_str().unwrap_or("").to_string();
+        if v["engine"].as_str() == Some("C") {
+            std::process::exit(engc::replay(&v));
+        }
         for p in props::all_props() {
             if p.id() == id && v["engine"].as_str().map(|e| e.starts_with('A')).unwrap_or(false) {
                 std::process::exit(enga::replay(p.as_ref(), &v));
             }
         }
         infra(&format!("no replay handler for property {:?}", id));
+    }
+    if args[0] == "dump-builtin-cls" {
+        let mut m = serde_json::Map::new();
+        for n in oracle::cls::BUILTIN_NAMES {
+            let c = oracle::cls::builtin_cls(n).unwrap();
+            m.insert(n.to_string(), serde_json::json!(c.0));
+        }
+        println!("{}", serde_json::Value::Object(m));
+        return;
     }
     let id = args[0].to_uppercase();
     let tier = match args.get(1).map(|s| s.as_str()) {
@@ -35,10 +49,80 @@ fn main() {
             _ => Tier::Quick,
         },
     };
+    match id.as_str() {
+        "C11" => std::process::exit(run_c11(tier)),
+        "C13" => std::process::exit(run_c13(tier)),
+        "C18" => std::process::exit(engc::run_c18(tier)),
+        _ => {}
+    }
     for p in props::all_props() {
         if p.id() == id {
             std::process::exit(enga::run(p.as_ref(), tier));
         }
     }
     infra(&format!("unknown property {}", id));
+}
+
+/// C11 = part (a) range-map model test (Engine C) + part (b) class expressions through the macro.
+fn run_c11(tier: Tier) -> i32 {
+    use serde_json::json;
+    let (rep_a, n_a) = engc::run_c11a(tier);
+    let (mut ev, code_b) = enga::run_collect(&props2::C11b, tier);
+    let get = |v: &serde_json::Value, k: &str| v[k].as_u64().unwrap_or(0);
+    let ev_b = ev.coverage.get("evaluations").and_then(|x| x.as_u64()).unwrap_or(0);
+    let nt_b = ev.coverage.get("distinct_nontrivial").and_then(|x| x.as_u64()).unwrap_or(0);
+    let rule_b = ev.coverage.get("rule").and_then(|x| x.as_str()).unwrap_or("").to_string();
+    let mut samples = rep_a["samples"].as_array().cloned().unwrap_or_default();
+    if let Some(b) = ev.coverage.get("samples").and_then(|x| x.as_array()) {
+        samples.extend(b.iter().take(2).cloned());
+    }
+    ev.set("evaluations", json!(ev_b + get(&rep_a, "evaluations")));
+    ev.set("distinct_nontrivial", json!(nt_b + get(&rep_a, "distinct_nontrivial")));
+    ev.set("part_a_rangemap", json!({
+        "evaluations": rep_a["evaluations"], "distinct_nontrivial": rep_a["distinct_nontrivial"],
+        "exhaustive_sequences": rep_a["exhaustive_sequences"], "exhaustive_universe_max": rep_a["exhaustive_universe_max"],
+        "random_sequences": rep_a["random_sequences"],
+    }));
+    ev.set("part_b_class_expressions", json!({"evaluations": ev_b, "distinct_nontrivial": nt_b}));
+    ev.set("samples", json!(samples));
+    ev.set("rule", json!(format!("part (a): operation sequences on lexgen's RangeMap<BTreeSet<u8>> (compiled unchanged via #[path]) against a point-wise model — EXHAUSTIVELY every sequence of up to two inserts followed by one insert / insert_ranges / remove_ranges (lists of 1-2 sorted disjoint ranges) over the universe 0..=5 (quick) or 0..=7 (thorough), and random sequences of up to 12 operations over the whole scalar range with end points re-anchored on earlier boundaries +-1, 0, the surrogate-gap edges and char::MAX, shrunk by proptest; after EVERY operation: pieces sorted, disjoint, start <= end <= char::MAX, values non-empty, and point-wise equal to the model at every point (small universe) or at every boundary +-1 (large). Non-trivial = the operation overlapped at least two existing pieces or removed a range equal to a piece. {}", rule_b)));
+    ev.set("exhaustive", json!(true));
+    ev.set("exhaustive_note", json!("exhaustive for part (a)'s bounded family only"));
+    ev.violations += n_a as i64;
+    ev.write();
+    if n_a > 0 || code_b == 1 {
+        1
+    } else {
+        code_b
+    }
+}
+
+fn run_c13(tier: Tier) -> i32 {
+    use serde_json::json;
+    let (mut ev, code) = enga::run_collect(&props2::C13, tier);
+    let seen = props2::DRIFT_SEEN.lock().unwrap().clone();
+    let known = util::known_findings("C13");
+    for (name, n) in &seen {
+        let listed = known.iter().any(|k| k.signature == format!("builtin={}", name));
+        if listed {
+            println!(
+                "KNOWN-FINDING: property=C13 $${} differs from its Rust predicate on {} code points, all inside the ranges recorded in known/C13_drift.json (Unicode-version drift of the table)",
+                name, n
+            );
+        } else {
+            // drift ranges on file but no known-findings entry: treat as violation
+            println!("VIOLATION property=C13 replay=/verif/known/C13_drift.json");
+            println!("  $${} drifts on {} code points but is not listed in known_findings.json", name, n);
+            ev.violations += 1;
+            ev.set("known_findings_seen", json!(seen));
+            ev.write();
+            return 1;
+        }
+    }
+    ev.set("known_findings_seen", json!(seen));
+    ev.set("code_points_per_definition", json!(1112064));
+    ev.set("exhaustive", json!(true));
+    ev.set("exhaustive_note", json!("exhaustive in the code-point dimension: every definition is run over all 1,112,064 scalar values; the set of definitions (names x shapes x windows) is complete in the thorough tier and sampled for windows in the quick tier"));
+    ev.write();
+    code
 }
